@@ -15,10 +15,12 @@ mod seq;
 mod shrink;
 mod simos;
 mod step;
+mod worker;
 
 use case::{Case, Verdict};
 use serde_json::{json, Value};
-use std::collections::{BTreeMap, BTreeSet};
+use std::collections::BTreeMap;
+use worker::{case_seed, violation_from, violation_json, Acc};
 use std::io::Write;
 
 const DEFAULT_SEED: u64 = 20260925;
@@ -55,6 +57,9 @@ fn plan(prop: &str, tier: &str) -> (&'static str, u64) {
         "C10" => ("long", if thorough { 1_600 } else { 160 }),
         "C16" => ("cfg", if thorough { 1_500 } else { 128 }),
         "C15" => ("compat", if thorough { 200_000 } else { 8_000 }),
+        "C04" => ("shuttle", if thorough { 4_000_000 } else { 160_000 }),
+        "C09" => ("shuttle", if thorough { 2_000_000 } else { 80_000 }),
+        "C13" => ("shuttle", if thorough { 1_000_000 } else { 60_000 }),
         "C12" => ("corrupt", if thorough { 4_000 } else { 480 }),
         _ => ("none", 0),
     }
@@ -67,201 +72,24 @@ fn level_of(prop: &str) -> &'static str {
     }
 }
 
-fn case_seed(base: u64, prop: &str, i: u64) -> u64 {
-    rng::mix(rng::mix(base, props::salt(prop)), i)
-}
 
-fn violation_json(v: &seq::Violation) -> Value {
-    json!({"oracle": v.oracle, "site": v.site, "detail": v.detail, "step": v.step, "in_rw_tx": v.in_rw_tx})
-}
 
-fn violation_from(v: &Value) -> Option<seq::Violation> {
-    Some(seq::Violation {
-        oracle: v.get("oracle")?.as_str()?.into(),
-        site: v.get("site")?.as_str()?.into(),
-        detail: v.get("detail")?.as_str()?.into(),
-        step: v.get("step")?.as_u64()? as usize,
-        in_rw_tx: v.get("in_rw_tx")?.as_bool()?,
-    })
-}
 
 // ---------------------------------------------------------------------------------------------
 // worker
 
-#[derive(Default)]
-struct Acc {
-    runs: u64,
-    nontrivial: BTreeSet<u64>,
-    shapes: BTreeSet<u64>,
-    ops: BTreeMap<String, u64>,
-    probes: BTreeMap<String, u64>,
-    counters: BTreeMap<String, u64>,
-    aborted: BTreeMap<String, u64>,
-    skipped: u64,
-    steps: u64,
-    commits: u64,
-    sim_events: u64,
-    probe_inputs: u64,
-    reader_checks: u64,
-    violations: Vec<(Value, Value)>,
-    per_site: BTreeMap<String, u64>,
-    harness: Vec<String>,
-    samples: Vec<Value>,
-}
-
-impl Acc {
-    fn add(&mut self, case: &Case, v: &Verdict) {
-        self.runs += 1;
-        if let Some(h) = &v.harness_error {
-            if self.harness.len() < 5 {
-                self.harness.push(format!("seed {}: {}", case.seed, h));
-            }
-        }
-        if v.stats.commits > 0 && v.stats.steps > 5 {
-            self.nontrivial.insert(v.trace);
-        }
-        for s in &v.stats.shape_sigs {
-            self.shapes.insert(*s);
-        }
-        for (k, n) in &v.stats.ops {
-            *self.ops.entry(k.clone()).or_default() += n;
-        }
-        for (k, n) in &v.stats.probes {
-            *self.probes.entry(k.to_string()).or_default() += n;
-        }
-        for (k, n) in &v.counters {
-            *self.counters.entry(k.clone()).or_default() += n;
-        }
-        if let Some(a) = &v.aborted {
-            *self.aborted.entry(format!("{} @ {}", a.oracle, a.site)).or_default() += 1;
-        }
-        if v.skipped.is_some() {
-            self.skipped += 1;
-        }
-        self.steps += v.stats.steps;
-        self.commits += v.stats.commits;
-        self.sim_events += v.sim_events;
-        self.probe_inputs += v.stats.probe_inputs;
-        self.reader_checks += v.stats.reader_checks;
-        if let Some(x) = &v.violation {
-            let key = format!("{} @ {}", x.oracle, x.site);
-            let n = self.per_site.entry(key).or_default();
-            *n += 1;
-            if *n <= 2 {
-                let mut c = case.clone();
-                if c.steps.is_none() && !v.issued.is_empty() {
-                    c.steps = Some(v.issued.clone());
-                }
-                self.violations.push((c.to_json(), violation_json(x)));
-            }
-        }
-        if self.samples.len() < 2 && v.stats.commits > 0 && !v.issued.is_empty() {
-            let steps: Vec<Value> = v.issued.iter().take(14).map(|s| s.to_json()).collect();
-            self.samples.push(json!({
-                "seed": case.seed.to_string(), "pagesize": case.pagesize, "steps_total": v.issued.len(),
-                "commits": v.stats.commits, "first_steps": steps, "trace": format!("{:016x}", v.trace),
-                "extra": v.extra_out,
-            }));
-        }
-    }
-
-    fn to_json(&self) -> Value {
-        json!({
-            "runs": self.runs,
-            "nontrivial": self.nontrivial.iter().map(|x| x.to_string()).collect::<Vec<_>>(),
-            "shapes": self.shapes.iter().map(|x| x.to_string()).collect::<Vec<_>>(),
-            "ops": self.ops, "probes": self.probes, "counters": self.counters, "aborted": self.aborted,
-            "skipped": self.skipped, "steps": self.steps, "commits": self.commits, "sim_events": self.sim_events,
-            "probe_inputs": self.probe_inputs, "reader_checks": self.reader_checks,
-            "violations": self.violations.iter().map(|(c, v)| json!({"case": c, "violation": v})).collect::<Vec<_>>(),
-            "per_site": self.per_site, "harness": self.harness, "samples": self.samples,
-        })
-    }
-
-    fn merge_json(&mut self, v: &Value) {
-        let u = |k: &str| v.get(k).and_then(|x| x.as_u64()).unwrap_or(0);
-        self.runs += u("runs");
-        self.skipped += u("skipped");
-        self.steps += u("steps");
-        self.commits += u("commits");
-        self.sim_events += u("sim_events");
-        self.probe_inputs += u("probe_inputs");
-        self.reader_checks += u("reader_checks");
-        for (k, set) in [("nontrivial", &mut self.nontrivial), ("shapes", &mut self.shapes)] {
-            if let Some(a) = v.get(k).and_then(|x| x.as_array()) {
-                for x in a {
-                    if let Some(n) = x.as_str().and_then(|s| s.parse().ok()) {
-                        set.insert(n);
-                    }
-                }
-            }
-        }
-        for (k, map) in [
-            ("ops", &mut self.ops),
-            ("probes", &mut self.probes),
-            ("counters", &mut self.counters),
-            ("aborted", &mut self.aborted),
-            ("per_site", &mut self.per_site),
-        ] {
-            if let Some(o) = v.get(k).and_then(|x| x.as_object()) {
-                for (kk, n) in o {
-                    *map.entry(kk.clone()).or_default() += n.as_u64().unwrap_or(0);
-                }
-            }
-        }
-        if let Some(a) = v.get("violations").and_then(|x| x.as_array()) {
-            for x in a {
-                self.violations.push((x["case"].clone(), x["violation"].clone()));
-            }
-        }
-        if let Some(a) = v.get("harness").and_then(|x| x.as_array()) {
-            for x in a {
-                self.harness.push(x.as_str().unwrap_or("").to_string());
-            }
-        }
-        if let Some(a) = v.get("samples").and_then(|x| x.as_array()) {
-            for x in a {
-                if self.samples.len() < 3 {
-                    self.samples.push(x.clone());
-                }
-            }
-        }
-    }
-}
-
 fn cmd_worker(args: &[String]) -> i32 {
-    let prop = &args[0];
-    let tier = &args[1];
-    let start: u64 = args[2].parse().unwrap();
-    let n: u64 = args[3].parse().unwrap();
-    let base: u64 = args[4].parse().unwrap();
-    let count: u64 = args[5].parse().unwrap();
-    let out = &args[6];
-    let (engine, _) = plan(prop, tier);
-    let progress = format!("{}.progress", out);
-    let mut acc = Acc::default();
-    let mut i = start;
-    let mut since_partial = 0u32;
-    while i < count {
-        let seed = case_seed(base, prop, i);
-        // announce the seed first: if this process dies, the orchestrator knows where
-        let _ = std::fs::write(&progress, format!("{} {}", i, seed));
-        let case = props::draw_case(prop, engine, seed, tier);
-        let v = props::execute(&case);
-        acc.add(&case, &v);
-        i += n;
-        since_partial += 1;
-        if since_partial >= 200 {
-            since_partial = 0;
-            let _ = std::fs::write(format!("{}.partial", out), serde_json::to_vec(&acc.to_json()).unwrap());
-        }
-    }
-    let _ = std::fs::remove_file(&progress);
-    std::fs::write(out, serde_json::to_vec(&acc.to_json()).unwrap()).unwrap();
-    simos::bypass(|| {
-        let _ = std::fs::remove_dir_all(props::scratch_root());
-    });
-    0
+    let (engine, _) = plan(&args[0], &args[1]);
+    worker::run_worker(
+        args,
+        &|prop, seed, tier| props::draw_case(prop, engine, seed, tier),
+        &|c| props::execute(c),
+        &|| {
+            simos::bypass(|| {
+                let _ = std::fs::remove_dir_all(props::scratch_root());
+            })
+        },
+    )
 }
 
 // ---------------------------------------------------------------------------------------------
@@ -280,11 +108,12 @@ fn cmd_check(prop: &str, tier: &str) -> i32 {
     let root = verif_root();
     let outdir = format!("{}/out/work/{}-{}-{}", root, prop, tier, std::process::id());
     std::fs::create_dir_all(&outdir).unwrap();
-    let exe = std::env::current_exe().unwrap();
+    let exe = if engine == "shuttle" { std::path::PathBuf::from(props::sh_exe()) } else { std::env::current_exe().unwrap() };
     let spawn = |w: u64, start: u64, gen: u32| {
         let out = format!("{}/w{}-{}.json", outdir, w, gen);
         let ch = std::process::Command::new(&exe)
             .args(["worker", prop, tier, &start.to_string(), &n.to_string(), &base.to_string(), &count.to_string(), &out])
+            .stderr(if engine == "shuttle" { std::process::Stdio::null() } else { std::process::Stdio::inherit() })
             .spawn()
             .expect("spawn worker");
         (w, ch, out, gen)
@@ -359,11 +188,19 @@ fn cmd_check(prop: &str, tier: &str) -> i32 {
             }
         };
         let budget = if case.engine == "seq" { 600 } else { 250 };
-        let (mut small, runs) = shrink::shrink(&case, &|c| props::execute(c), budget);
+        let (mut small, runs) = if case.engine == "shuttle" {
+            // schedules and scenario parameters are minimised on the shuttle side
+            match props::sh_child("minimise", &case).ok().and_then(|o| Case::from_json(&o)) {
+                Some(m) => (m, 0),
+                None => (case.clone(), 0),
+            }
+        } else {
+            shrink::shrink(&case, &|c| props::execute(c), budget)
+        };
         let mut verdict = props::execute(&small);
         // engines that search a fault space record the one failing point for the replay
         if let Some(o) = verdict.extra_out.as_object() {
-            if !o.is_empty() {
+            if !o.is_empty() && case.engine != "shuttle" {
                 let mut pinned = small.clone();
                 pinned.extra = verdict.extra_out.clone();
                 if !verdict.issued.is_empty() {
